@@ -896,6 +896,11 @@ def _accept_slice_impl(slice_expr, input_array, reduced_axes, keepdims, make_res
 
     index = slice_expr.index
 
+    # Blocks of an object-dtype input need not be arrays (argtopk pairs each
+    # block with its indices in a tuple): they cannot be sliced.
+    if getattr(input_array, "dtype", None) == object:
+        return None
+
     # Don't handle None/newaxis
     if any(idx is None for idx in index):
         return None
